@@ -135,6 +135,10 @@ func (h *Harness) check(in *inst, x *sched.Exec) (string, []Finding) {
 				add("C12", clLate, wsite, "after removal", "%s: writer.%s(%s) at t=%d although %s had returned at t=%d (causes %v)", name, c.kind, clipS(c.payload, 60), c.at, c.afterAPI, s.apiRet, s.causes)
 			case c.afterClosed:
 				add("C12", clLate, wsite, "after removal", "%s: writer.%s(%s) at t=%d although the subscription's completed channel was already closed (causes %v)", name, c.kind, clipS(c.payload, 60), c.at, s.causes)
+			case c.exitAfterAPI != "":
+				add("C12", clLate, wsite, "after removal", "%s: writer.%s(%s) entered at t=%d and was still inside the writer at t=%d although %s had returned at t=%d (causes %v)", name, c.kind, clipS(c.payload, 60), c.at, c.ret, c.exitAfterAPI, s.apiRet, s.causes)
+			case c.exitAfterClosed:
+				add("C12", clLate, wsite, "after removal", "%s: writer.%s(%s) entered at t=%d and was still inside the writer at t=%d although the subscription's completed channel had been closed meanwhile (causes %v)", name, c.kind, clipS(c.payload, 60), c.at, c.ret, s.causes)
 			case c.afterTerminal != "" && c.kind == "Heartbeat":
 				hbAfterTerminal++ // between the source's Complete/Error and its Done: not judged (see report)
 			case c.afterTerminal != "" && c.kind == "Flush" && !foreignEvent(s, evByTag[tagOfPayload(c.payload)]):
